@@ -117,6 +117,18 @@ def judge_score(d):
                 so = float(model.score((sub + d["offset"]).astype(np.float32), quat, pos))
                 if not abs(so - sc) <= 3e-4:
                     out.append(viol("C07/offset-invariance:ZNCC", f"ZNCC {tag}: score {sc:.6f} -> {so:.6f} after offset {d['offset']}"))
+        # another cutoff for the same box in the same process (filter weights are cached per shape / cutoff)
+        if d["cutoff"] is not None:
+            c2 = [c for c in (0.2, 0.45, 0.7, 0.33) if abs(c - d["cutoff"]) > 1e-9][d["seed"] % 3]
+            kw2 = dict(kw)
+            kw2["cutoff"] = c2
+            model2 = get_model("ZNCC")(tmpl, mask, **kw2)
+            sc2 = float(model2.score(sub, quat, pos))
+            a2, b2 = reference_images(model2, tmpl, sub, mask, c2, quat)
+            if float(np.abs(a2).max()) > 1e-9 and float(np.abs(b2).max()) > 1e-9:
+                w2 = ref.pearson(a2, b2)
+                if not abs(sc2 - w2) <= 2e-4:
+                    out.append(viol("C07/score-vs-reference:second-cutoff", f"ZNCC {tag}: a second model with cutoff {c2} on the same box scores {sc2:.6f}, reference {w2:.6f}"))
         # agreement score / landscape centre / zero-range alignment (the normalised models named by the property: ZNCC, FSC)
         for name in ("ZNCC", "FSC"):
             if name == "FSC" and max(shape) > 10:
